@@ -3,6 +3,7 @@ import ChemProofs.Drv.Comp
 import ChemProofs.Drv.Peaks
 import ChemProofs.Drv.Spec
 import ChemProofs.Drv.Formula
+import ChemProofs.Drv.Conv
 /- Model driver: `driver <mode>` reads op lines on stdin, prints one observation line per op. -/
 open Chem.Drv
 
@@ -26,6 +27,9 @@ def main (args : List String) : IO UInt32 := do
     return 0
   | ["formula"] => do
     loop (← IO.getStdin) runFormulaCase
+    return 0
+  | ["conv"] => do
+    loop (← IO.getStdin) runConvCase
     return 0
   | ["peaks"] => do
     loop (← IO.getStdin) runPeaksCase
